@@ -103,6 +103,169 @@ theorem memo_call_twice (m : Method St Arg Out) (s : MState St Arg Out) (a : Arg
     show [(stepMemo m s (.call a)).2, (stepMemo m (stepMemo m s (.call a)).1 (.call a)).2] = _
     rw [h2, stepMemo_call_miss m s hl]
 
+/-! ### 4b: hand-rolled memos keyed by only PART of the argument
+
+`self.m_wif = ...` (one slot, whatever `pub_key_mode` is), `self.m_addrs[index] = ...` (keyed by
+`index`, whatever `change` is): the cache is indexed by `key a`, not by `a`.  The static analysis
+reports the arguments the key ignores; these theorems say what that report means: the memo is
+transparent exactly when the result is a function of the key (`KeyRespects`), and otherwise two
+calls that differ only in an ignored argument tell it from the reference. -/
+
+section Keyed
+
+omit [DecidableEq Arg]
+variable {K : Type} [DecidableEq K]
+
+/-- **Transparency of a keyed memo.**  If the result is a function of the key, then from the empty
+cache, on a history whose mutations the body does not observe, the keyed machine answers exactly
+like the always-computing reference machine. -/
+theorem keyed_transparent (m : KMethod St Arg K Out) (st : St) (h : List (Op St Arg))
+    (hk : KeyRespects m) :
+    HistoryIndependent (⟨m.pureOut⟩ : Method St Arg Out) h →
+      runKeyed m ⟨st, []⟩ h = runPure ⟨m.pureOut⟩ st h :=
+  runKeyed_eq_runPure m hk h ⟨st, []⟩ (kcacheOk_empty m st)
+
+/-- the same from any cache in which every stored `(k, o)` is the current result of every argument
+with key `k` -/
+theorem keyed_transparent_from (m : KMethod St Arg K Out) (s : KState St K Out)
+    (h : List (Op St Arg)) (hk : KeyRespects m)
+    (hs : ∀ k o, (k, o) ∈ s.cache → ∀ a, m.key a = k → o = m.pureOut s.st a) :
+    HistoryIndependent (⟨m.pureOut⟩ : Method St Arg Out) h →
+      runKeyed m s h = runPure ⟨m.pureOut⟩ s.st h :=
+  runKeyed_eq_runPure m hk h s hs
+
+/-- what the keyed machine answers on two calls whose arguments share a key: the value of the FIRST
+argument, twice -/
+theorem keyed_stale_value (m : KMethod St Arg K Out) (st : St) (a b : Arg)
+    (hab : m.key a = m.key b) :
+    runKeyed m ⟨st, []⟩ [.call a, .call b] = [some (m.pureOut st a), some (m.pureOut st a)] :=
+  runKeyed_collide m st hab
+
+/-- **Stale-answer witness.**  Two arguments with the same key and different results: calling the
+method on one and then on the other tells the keyed machine from the reference machine — no
+mutation needed. -/
+theorem keyed_stale_witness (m : KMethod St Arg K Out) (st : St) (a b : Arg)
+    (hab : m.key a = m.key b) (hne : m.pureOut st a ≠ m.pureOut st b) :
+    runKeyed m ⟨st, []⟩ [.call a, .call b] ≠ runPure ⟨m.pureOut⟩ st [.call a, .call b] := by
+  rw [runKeyed_collide m st hab]
+  intro h
+  have h' := h.trans (runPure_two_calls m st a b)
+  injection h' with _ h'
+  injection h' with h' _
+  injection h' with h'
+  exact hne h'
+
+/-- conversely: if the two machines agree on `[call a, call b]` and the keys collide, the results
+are equal -/
+theorem keyed_agree_imp_eq (m : KMethod St Arg K Out) (st : St) (a b : Arg)
+    (hab : m.key a = m.key b)
+    (h : runKeyed m ⟨st, []⟩ [.call a, .call b] = runPure ⟨m.pureOut⟩ st [.call a, .call b]) :
+    m.pureOut st a = m.pureOut st b := by
+  rw [runKeyed_collide m st hab] at h
+  have h' := h.trans (runPure_two_calls m st a b)
+  injection h' with _ h'
+  injection h' with h' _
+  injection h' with h'
+
+/-- **Characterisation (no mutation at all).**  The result is a function of the key iff the keyed
+machine is transparent on every sequence of calls from every state. -/
+theorem keyed_transparent_iff (m : KMethod St Arg K Out) :
+    KeyRespects m ↔
+      ∀ (st : St) (as : List Arg),
+        runKeyed m ⟨st, []⟩ (as.map Op.call) = runPure ⟨m.pureOut⟩ st (as.map Op.call) := by
+  constructor
+  · intro hk st as
+    exact keyed_transparent m st _ hk (historyIndependent_map_call _ as)
+  · intro hT st a b hab
+    exact keyed_agree_imp_eq m st a b hab (hT st [a, b])
+
+/-- **Characterisation with mutations.**  For a set `F` of available mutations: (the result is a
+function of the key AND every mutation of `F` is invisible to the body) iff the keyed machine is
+transparent on every history built from `F`.  This is `memo_transparent_iff` plus the key clause. -/
+theorem keyed_transparent_iff_builtFrom (m : KMethod St Arg K Out) (F : (St → St) → Prop) :
+    (KeyRespects m ∧ ∀ f, F f → Independent (⟨m.pureOut⟩ : Method St Arg Out) f) ↔
+      ∀ (st : St) (h : List (Op St Arg)), BuiltFrom F h →
+        runKeyed m ⟨st, []⟩ h = runPure ⟨m.pureOut⟩ st h := by
+  constructor
+  · rintro ⟨hk, hF⟩ st h hb
+    exact keyed_transparent m st h hk (historyIndependent_of_builtFrom _ F hF h hb)
+  · intro hT
+    refine ⟨fun st a b hab => ?_, fun f hf st a => ?_⟩
+    · have hb : BuiltFrom F ([.call a, .call b] : List (Op St Arg)) := by
+        intro g hg
+        simp only [List.mem_cons, List.not_mem_nil, or_false, reduceCtorEq] at hg
+      exact keyed_agree_imp_eq m st a b hab (hT st _ hb)
+    · have hb : BuiltFrom F ([.call a, .mutate f, .call a] : List (Op St Arg)) := by
+        intro g hg
+        simp only [List.mem_cons, List.not_mem_nil, or_false, reduceCtorEq, false_or] at hg
+        cases hg; exact hf
+      have h := hT st _ hb
+      rw [runKeyed_stale] at h
+      have h' := h.trans (runPure_stale ⟨m.pureOut⟩ st f a)
+      injection h' with _ h'
+      injection h' with _ h'
+      injection h' with h' _
+      injection h' with h'
+      exact h'.symm
+
+/-- **(a) `key := id` is the whole-argument machine** of sections 1–4, on every history and from
+every cache. -/
+theorem keyed_id_eq_memo [DecidableEq Arg] (f : St → Arg → Out) (st : St) (c : List (Arg × Out))
+    (h : List (Op St Arg)) :
+    runKeyed (⟨f, id⟩ : KMethod St Arg Arg Out) ⟨st, c⟩ h = runMemo ⟨f⟩ ⟨st, c⟩ h :=
+  runKeyed_id_eq_runMemo f h st c
+
+/-- `key := id` always respects the key: `keyed_transparent` then specialises to `memo_transparent` -/
+theorem keyRespects_id (f : St → Arg → Out) : KeyRespects (⟨f, id⟩ : KMethod St Arg Arg Out) := by
+  intro st a b hab
+  cases (show a = b from hab)
+  rfl
+
+/-- **(b) The single-slot memo** (`if self.m_x is None: self.m_x = f(arg)`; `K := Unit`) is
+transparent iff the result does not depend on the argument. -/
+theorem single_slot_transparent_iff (f : St → Arg → Out) :
+    (∀ st a b, f st a = f st b) ↔
+      ∀ (st : St) (as : List Arg),
+        runKeyed (⟨f, fun _ => ()⟩ : KMethod St Arg Unit Out) ⟨st, []⟩ (as.map Op.call)
+          = runPure ⟨f⟩ st (as.map Op.call) := by
+  rw [← keyed_transparent_iff]
+  exact ⟨fun h st a b _ => h st a b, fun h st a b => h st a b rfl⟩
+
+/-- **The report of the static analysis.**  The argument is a pair (kept part, ignored part) and the
+key is the kept part: the memo is transparent iff the result does not depend on the ignored part. -/
+theorem ignored_part_transparent_iff {A B : Type} [DecidableEq A] (f : St → A × B → Out) :
+    (∀ st x y y', f st (x, y) = f st (x, y')) ↔
+      ∀ (st : St) (as : List (A × B)),
+        runKeyed (⟨f, Prod.fst⟩ : KMethod St (A × B) A Out) ⟨st, []⟩ (as.map Op.call)
+          = runPure ⟨f⟩ st (as.map Op.call) := by
+  rw [← keyed_transparent_iff]
+  constructor
+  · rintro h st ⟨x, y⟩ ⟨x', y'⟩ hxy
+    cases (show x = x' from hxy)
+    exact h st x y y'
+  · intro h st x y y'
+    exact h st (x, y) (x, y') rfl
+
+/-- (c) non-vacuity: `GetAddress(change, index)` memoised under `index` only.  The second call
+returns the answer of the first. -/
+def exampleKeyed : KMethod Unit (Bool × Nat) Nat Nat :=
+  ⟨fun _ a => if a.1 then a.2 + 1 else a.2, Prod.snd⟩
+
+example : runKeyed exampleKeyed ⟨(), []⟩ [.call (false, 5), .call (true, 5)] = [some 5, some 5] := by
+  decide
+
+example : runPure (⟨exampleKeyed.pureOut⟩ : Method Unit (Bool × Nat) Nat) ()
+    [.call (false, 5), .call (true, 5)] = [some 5, some 6] := by
+  decide
+
+example : runKeyed exampleKeyed ⟨(), []⟩ [.call (false, 5), .call (true, 5)]
+    ≠ runPure ⟨exampleKeyed.pureOut⟩ () [.call (false, 5), .call (true, 5)] :=
+  keyed_stale_witness exampleKeyed () (false, 5) (true, 5) rfl (by decide)
+
+example : ¬ KeyRespects exampleKeyed := fun h => absurd (h () (false, 5) (true, 5) rfl) (by decide)
+
+end Keyed
+
 /-! ### 5–6: interleavings -/
 
 /-- one atomic step of any thread preserves the invariant -/
